@@ -30,7 +30,8 @@ REACH = {"quick": {"features:0": 100, "null-geometry": 300, "hostile-member-name
 
 GEOMS = [{"type": "Point", "coordinates": [24.94, 60.17]}, {"type": "LineString", "coordinates": [[0, 0], [1.5, 2]]},
          {"type": "Polygon", "coordinates": [[[0, 0], [1, 0], [1, 1], [0, 0]]]}, {"type": "MultiPolygon", "coordinates": [[[[0, 0], [1, 0], [1, 1], [0, 0]]]]},
-         {"type": "GeometryCollection", "geometries": [{"type": "Point", "coordinates": [1, 2]}]}, None]
+         {"type": "GeometryCollection", "geometries": [{"type": "Point", "coordinates": [1, 2]}]}, None, {},
+         {"type": "GeometryCollection", "geometries": []}]        # ({} and empty collections: falsy, but not null)
 MEMBER_NAMES = ["name", "crs", "bbox", "x-meta", "with space", 'quo"te', "back\\slash", "ünï", "日本", "tab\tname", "new\nline", "a/b",
                 "feature", "feat", "s", "t", "e", "", "typ", "Features", "properties", "geometry"]
 MEMBER_VALUES = ["text", 3, 2.5, True, None, [1, "a", None, {"k": [1.5]}], {"type": "name", "properties": {"name": "urn:ogc:def:crs:OGC:1.3:CRS84"}},
